@@ -609,6 +609,9 @@ def case_id(st):
 
 
 def describe(st):
+    if st.get("big"):
+        return {"type": cql_name(st["ty"]), "pv": st["pv"], "value": "compact: " + st["big"], "expect": "ok",
+                "enc": bytes(st["enc"][:24]).hex() + "... (%d bytes)" % len(st["enc"])}
     d = {"type": cql_name(st["ty"]), "pv": st["pv"], "value": st["val"], "expect": st["expect"]}
     if st["expect"] == "ok":
         d["enc"] = bytes(st["enc"]).hex()
@@ -621,8 +624,8 @@ def describe(st):
 ALL_SCALARS = {"boolean", "tinyint", "smallint", "int", "bigint", "counter", "timestamp", "time", "varint", "decimal",
                "date", "duration", "ascii", "text", "blob", "uuid", "timeuuid", "inet"}
 INVARIANTS = ["TypeOK", "RoundTrip", "LengthConsistent", "FixedWidths", "NormIdempotent", "VarintMinimal",
-              "VintCanonical", "WidthRule", "RaiseJustified", "WideRoundTrip", "WideMinimal", "WideAgrees32", "WideLong"]
-WITNESSES = ["Witness_NullField", "Witness_WideNeg8", "Witness_AwareOffset", "Witness_ShortUdt", "Witness_Wide9",
+              "VintCanonical", "WidthRule", "RaiseJustified", "WideRoundTrip", "WideMinimal", "WideAgrees32", "WideLong", "BigOK"]
+WITNESSES = ["Witness_NullField", "Witness_WideNeg8", "Witness_BigCountV2", "Witness_BigVec14", "Witness_AwareOffset", "Witness_ShortUdt", "Witness_Wide9",
              "Witness_WideRaise", "Witness_V2Width", "Witness_Vint5", "Witness_Varint3",
              "Witness_Raise", "Witness_VarVector", "Witness_LongVecElem"]
 VEC_SCALARS = {"int", "bigint", "timestamp", "boolean", "uuid", "text", "varint", "blob", "decimal", "inet"}
@@ -647,9 +650,9 @@ def runs(quick):
     """(label, families) per TLC run"""
     if quick:
         return [("scalars, depth-1 composites, range errors, nesting to depth 3 (small alphabets)",
-                 ["scalar", "list", "set", "map", "tuple", "udt", "vector", "range", "tz", "wide", "inettext", "nest2", "nest3"])]
-    return [("scalars (full boundary alphabets), lists, sets, range errors, timestamps as wall clock + UTC offset, wide integers, inet as mixed text",
-             ["scalar", "list", "set", "range", "tz", "wide", "inettext"]),
+                 ["scalar", "list", "set", "map", "tuple", "udt", "vector", "range", "tz", "wide", "inettext", "big", "nest2", "nest3"])]
+    return [("scalars (full boundary alphabets), lists, sets, range errors, timestamps as wall clock + UTC offset, wide integers, inet as mixed text, 16-bit / vint length boundaries",
+             ["scalar", "list", "set", "range", "tz", "wide", "inettext", "big"]),
             ("maps", ["map"]),
             ("tuples, UDTs, vectors", ["tuple", "udt", "vector"]),
             ("nesting depth 2", ["nest2"]),
@@ -683,6 +686,11 @@ def enumerate_cases(ctx, tlc, module="Codec"):
             need["raise"] = "RangeCase"
         if "wide" in fams and not {"wide", "wraise"} <= seen:
             raise tlc.MachineryError("vacuity: action WideCase never taken (both outcomes) in run %s" % label)
+        if "big" in fams and "big" not in seen:
+            raise tlc.MachineryError("vacuity: action BigCase never taken in run %s" % label)
+        for s_ in states:
+            if s_["expect"] == "big":
+                expand_big(s_)
         for s_ in states:                      # the harness treats a wide-integer case like any other
             if s_["expect"] == "wide":
                 s_["expect"] = "ok"
@@ -702,7 +710,7 @@ def enumerate_cases(ctx, tlc, module="Codec"):
 def check_witnesses(ctx, tlc):
     """vacuity: TLC must VIOLATE each witness on a small configuration"""
     import os
-    consts = constants(True, ["scalar", "list", "tuple", "udt", "vector", "range", "tz", "wide"])
+    consts = constants(True, ["scalar", "list", "tuple", "udt", "vector", "range", "tz", "wide", "big"])
     consts.update(TopScalars={"varint", "duration"}, ElemScalars={"int"}, FieldScalars={"int", "text"},
                   VecScalars={"text"}, B0=9)
     names = WITNESSES[:3] if ctx.quick else WITNESSES
@@ -716,6 +724,19 @@ def check_witnesses(ctx, tlc):
     ctx.note("vacuity_witnesses_reached", reached)
 
 
+def expand_big(st):
+    """a compactly described large value (Codec.tla BigShapes) -> the ordinary explicit form"""
+    e, v = st["enc"], st["val"]
+    enc = list(e["pre"]) + list(e["unit"]) * e["n"] + list(e["post"])
+    kind = v["kind"]
+    if kind == "count":
+        val = [[list(v["elem"])] for _ in range(v["n"])]
+    else:
+        big, small = list(v["elem"]) * v["n"], [98]
+        val = [[big], [small]] if kind == "elemsize" else [big, small]
+    st.update(enc=enc, img=[enc], val=val, norm=val, expect="ok", big="%s:%d" % (kind, v["n"]))
+
+
 def census(cases):
     """cases per family (top-level kind) and per structural feature; raises on an empty class (vacuity)"""
     fam, feats = {}, {}
@@ -724,6 +745,10 @@ def census(cases):
         f = fam.setdefault(k, {"ok": 0, "raise": 0, "null": 0, "empty": 0})
         f[st["expect"]] += 1
         if st["expect"] == "ok":
+            if st.get("big"):
+                feats["length-boundary:" + st["big"].split(":")[0]] = feats.get("length-boundary:" + st["big"].split(":")[0], 0) + 1
+                if st["pv"] < 3 and int(st["big"].split(":")[1]) > 32767:
+                    feats["v2-unsigned-short-above-32767"] = feats.get("v2-unsigned-short-above-32767", 0) + 1
             for x in features(st["ty"], st["val"]):
                 feats[x] = feats.get(x, 0) + 1
             if len(st["img"]) > 1:
